@@ -142,8 +142,11 @@ def gen_tree(rng, depth, npool, uni):
         else:
             b = {"op": "ref", "i": rng.randrange(npool)}
         return {"op": "div", "a": sub(), "b": b, "inplace": rng.random() < 0.3}
-    if r < 0.83:
+    if r < 0.80:
         return {"op": "neg", "a": sub()}
+    if r < 0.83:
+        # the same object on both sides of an in-place operator: x += x, x -= x, x *= x
+        return {"op": "iself", "k": rng.choice(["add", "sub", "mul"]), "a": sub()}
     if r < 0.85:
         return {"op": "pos", "a": sub()}
     if r < 0.92:
@@ -350,6 +353,24 @@ class Ev:
                     r = a / b
             self.check_pool(op)
             return r
+        if op == "iself":
+            a = self.ev(n["a"])
+            if any(a is p for p in self.pool) and isinstance(a, (dimod.BinaryQuadraticModel, dimod.QuadraticModel)):
+                a = copy.deepcopy(a)
+            before = observe(a) if hasattr(a, 'variables') else None
+            try:
+                if n["k"] == "add":
+                    a += a
+                elif n["k"] == "sub":
+                    a -= a
+                else:
+                    a *= a
+            except Exception:
+                if before is not None and observe(a) != before:
+                    self.flags["failed_inplace_modified_receiver"] = f"self {n['k']}=: {before} -> {observe(a)}"
+                raise
+            self.check_pool("iself")
+            return a
         if op == "neg":
             r = -self.ev(n["a"])
             self.check_pool(op)
@@ -414,6 +435,9 @@ def c_tree(n, leaves, T):
         return f"(Num {cq(F(n['v']))})"
     if op in ("add", "sub", "mul", "div"):
         return f"({op.capitalize()} {c_tree(n['a'], leaves, T)} {c_tree(n['b'], leaves, T)})"
+    if op == "iself":
+        t = c_tree(n['a'], leaves, T)
+        return f"({n['k'].capitalize()} {t} {t})"
     if op in ("neg", "pos"):
         return f"({op.capitalize()} {c_tree(n['a'], leaves, T)})"
     if op == "pow":
@@ -528,7 +552,7 @@ def run_cmp_case(c):
         py_fail = f"unexpected exception {type(e).__name__}: {e}"
     if E.flags.get("failed_inplace_modified_receiver"):
         return {"coq": None, "py_fail": "a failing in-place operator modified its receiver: " + E.flags["failed_inplace_modified_receiver"],
-                "features": {"failed_inplace_modified_receiver": True}, "nontrivial": True}
+                "features": dict(feats, failed_inplace_modified_receiver=True), "nontrivial": True}
     if res is None:
         return {"coq": None, "py_fail": py_fail, "features": feats, "nontrivial": True}
     leaves = [c_leaf(d, s, T) for d, s in zip(c["pool"], E.snap)]
@@ -555,6 +579,7 @@ def run_cmp_case(c):
 def run_case(c):
     if c.get("kind") == "cmp":
         return run_cmp_case(c)
+    narrowed = False
     keep = []
     pool = [build_operand(o, keep) for o in c["pool"]]
     T = LabelTable([e[0] for e in c["uni"]])
@@ -577,6 +602,23 @@ def run_case(c):
             feats["result"] = o["cls"][:3]
             # promotion must keep every variable's vartype and bounds: directly on the observations
             used = leaf_infos(c["tree"], E.snap)
+            # signature of the open float32-promotion finding: a bound of a used operand shows up in the
+            # result rounded to float32 (e.g. the default REAL bound 1e30 -> 1.0000000150474662e30)
+            if any(d.get("dtype") == 'f32' for d in c["pool"]):
+                for l, vt, lb, ub in o["info"]:
+                    for x in used:
+                        if x[0] == l and x[1] == vt and any(
+                                F(xb) != F(rb) and F(float(np.float32(float(F(xb))))) == F(rb)
+                                for xb, rb in ((x[2], lb), (x[3], ub))):
+                            narrowed = True
+                            break
+                    else:
+                        continue
+                    break
+                else:
+                    narrowed = False
+            else:
+                narrowed = False
             for l, vt, lb, ub in o["info"]:
                 have = {tuple(x[1:]) for x in used if x[0] == l}
                 if len(have) == 1 and (vt, lb, ub) not in have:
@@ -625,7 +667,7 @@ def run_case(c):
         o = None
     if E.flags.get("failed_inplace_modified_receiver"):
         py_fail = "a failing in-place operator modified its receiver: " + E.flags["failed_inplace_modified_receiver"]
-        return {"coq": None, "py_fail": py_fail, "features": {"failed_inplace_modified_receiver": True}, "nontrivial": True}
+        return {"coq": None, "py_fail": py_fail, "features": dict(feats, failed_inplace_modified_receiver=True), "nontrivial": True}
     if res is None:
         return {"coq": None, "py_fail": py_fail, "features": feats, "nontrivial": True}
     leaves = [c_leaf(d, s, T) for d, s in zip(c["pool"], E.snap)]
@@ -651,7 +693,7 @@ def run_case(c):
     observed = dict(observed, ops=sorted(ops), forms=forms)
     if feats.get("narrow_dtype_bound_limit"):
         feats = {"narrow_dtype_bound_limit": True}
-    if feats.get("narrow_dtype_bound_changed"):
+    if feats.get("narrow_dtype_bound_changed") or (o is not None and narrowed):
         feats = {"narrow_dtype_bound_changed": True}
     return {"coq": coq, "py_fail": py_fail, "features": feats,
             "nontrivial": feats.get("result") in ("BQM", "QM", "VIE"),
